@@ -333,6 +333,14 @@ where
     where
         Sq: Data<Elem = Sd::Elem>,
     {
+        // the leading axis is checked by `Zip`, the remaining axes only once a query
+        // element is interpolated - which never happens for an empty query
+        assert!(
+            buffer.shape().get(1..) == self.data.shape().get(1..),
+            "buffer has the wrong shape, expected trailing axes: {:?}, got: {:?}",
+            self.data.shape().get(1..).unwrap_or(&[]),
+            buffer.shape().get(1..).unwrap_or(&[])
+        );
         Zip::from(xs)
             .and(buffer.axis_iter_mut(Axis(0)))
             .fold_while(Ok(()), |_, &x, buf| {
